@@ -109,4 +109,52 @@ def deserializeCompact (P : Prims) (segs : List (List UInt8)) : Except Err (Head
 def serializeCompact (headerOctets ek iv ct tag : Bytes) : List (List UInt8) :=
   [Base64.urlEncode headerOctets, Base64.urlEncode ek, Base64.urlEncode iv, Base64.urlEncode ct, Base64.urlEncode tag]
 
+/-! ### general JSON serialization (`deserialize_json`), after base64 / JSON decoding of the members -/
+
+structure Recipient where
+  kid : Option String          -- `kid` of the per-recipient header
+  ek : Bytes
+  deriving Repr, DecidableEq
+
+structure JsonJwe where
+  protectedSeg : List UInt8            -- the received "protected" text ("" when absent)
+  aadSeg : Option (List UInt8)         -- the received "aad" text
+  recipients : List Recipient
+
+/-- the primitives as the recipient sees them: unwrapping an entry's encrypted key with its key (the
+    merged header of that entry is part of the entry), and the content decryption of the received
+    iv / ciphertext / tag under a CEK and an AAD -/
+structure JPrims where
+  unwrap : Recipient → Option Bytes
+  dec : (cek aad : Bytes) → Option Bytes
+
+/-- `aad = protected [+ "." + aad]` -/
+def jsonAad (j : JsonJwe) : Bytes :=
+  match j.aadSeg with
+  | none => j.protectedSeg
+  | some a => j.protectedSeg ++ [46] ++ a
+
+/-- the fallback loop of `_unwrap_for_matching_recipient`: the first entry that unwraps AND whose
+    key authenticates the content -/
+def firstAuthentic (P : JPrims) (aad : Bytes) : List Recipient → Option Bytes
+  | [] => none
+  | r :: rest =>
+    match P.unwrap r with
+    | some cek => if (P.dec cek aad).isSome then some cek else firstAuthentic P aad rest
+    | none => firstAuthentic P aad rest
+
+/-- choice of the CEK: an entry whose kid equals the key's kid is used unconditionally; otherwise the loop -/
+def chooseCek (P : JPrims) (j : JsonJwe) (keyKid : Option String) : Option Bytes :=
+  let direct : Option Recipient := match keyKid with
+    | some k => j.recipients.find? fun r => r.kid == some k
+    | none => none
+  match direct with
+  | some r => P.unwrap r
+  | none => firstAuthentic P (jsonAad j) j.recipients
+
+def deserializeJson (P : JPrims) (j : JsonJwe) (keyKid : Option String) : Option Bytes :=
+  match chooseCek P j keyKid with
+  | some cek => P.dec cek (jsonAad j)
+  | none => none
+
 end Model.Jwe
